@@ -13,6 +13,7 @@
 #include <algorithm>
 #include <cerrno>
 #include <csignal>
+#include <cstdlib>
 #include <ctime>
 #include <memory>
 #include <poll.h>
@@ -25,7 +26,7 @@ namespace verif {
 const PropertyInfo kInfo = {
     "C10", 14, 6, 6,
     "tape -> n from boundary table {1,2,3,4,5,8,16,32,64,128,200,253,254,255} or uniform 1..24 or uniform 1..255; t from {1,2,3,4,n,n-1,n-2,(n+1)/2} or uniform 1..n; "
-    "32-byte secret: zero / random / 0xFF / one-hot / sparse; split coefficients from the interposed random_device (seeded stream, or all-zero, "
+    "32-byte secret: 01..20 / random / zero / 0xFF / one-hot / sparse; split coefficients from the interposed random_device (seeded stream, or all-zero, "
     "or top coefficient zero, or all 0xFF); n = 255 is split in a forked child under a 2 s timeout (0.3 s once a timeout was seen in this process) and an RSS cap. "
     "Each record is one combine query on that split: exactly t distinct shares (first/last/random subset, any order); t..n distinct shares; "
     "fewer than t; a repeated index inside the first t (twin values: both all-zero / exact copy / own value / zero / random); a repeated index beyond the first t; "
@@ -423,33 +424,37 @@ const char* const kSelName[4] = {"first", "last-desc", "random", "random-desc"};
 // ------------------------------------------------------------------------------------------------------
 // "no information": exhaustive coefficient enumeration through the interposed random_device
 // ------------------------------------------------------------------------------------------------------
-// Value served for draw number d of a split when the byte pair to enumerate is (a, b): every natural draw order
-// (byte-major pairs (2k, 2k+1) or coefficient-major pairs (k, 32+k)) hands each secret byte one a and one b.
+// A draw is served with the coefficient byte replicated in all four bytes, so the byte reaches the coefficient
+// whether the implementation truncates, masks, shifts or scales the 32-bit draw.
 inline std::uint32_t rep(unsigned byte) { return byte * 0x01010101u; }
-inline bool draw_is_b(unsigned d) { return ((d ^ (d >> 5)) & 1u) != 0; }
 
-void push_draws(unsigned t, unsigned a, unsigned b) {
-    const unsigned draws = 32 * (t - 1);
-    for (unsigned d = 0; d < draws; ++d) vclock::rng_push(rep((t == 3 && draw_is_b(d)) ? b : a));
+std::vector<ShamirShare> split_with_draws(const Secret& s, unsigned t, unsigned n, const std::vector<std::uint32_t>& draws, std::uint64_t* used = nullptr) {
+    vclock::rng_clear_queue();
+    for (auto v : draws) vclock::rng_push(v);
+    const std::uint64_t d0 = vclock::rng_draws();
+    auto r = Shamir::split(s, static_cast<std::uint8_t>(t), static_cast<std::uint8_t>(n));
+    if (used) *used = vclock::rng_draws() - d0;
+    vclock::rng_clear_queue();
+    return r;
 }
 
-// On a failed enumeration: does the split really use the draws the way the enumeration assumes (each draw feeds at
-// most one secret byte position; each position fed by <= t-1 draws, for t = 3 one "a" and one "b" draw)?
-bool enumeration_assumption_holds(unsigned t, unsigned n, std::string& why) {
+// Which secret-byte position does each random_device draw feed?  Found by observation (change one draw, see which
+// byte positions of the shares change), so the enumeration does not assume a draw order.  false = the split does not
+// use one draw per coefficient in a way this enumeration understands (then nothing is asserted).
+bool map_draws(unsigned t, unsigned n, std::vector<std::vector<unsigned>>& feeds, std::string& why) {
     const unsigned draws = 32 * (t - 1);
     Secret zero{};
-    auto run = [&](int special) {
-        vclock::rng_clear_queue();
-        for (unsigned d = 0; d < draws; ++d) vclock::rng_push(static_cast<int>(d) == special ? 0xA5A5A5A5u : 0u);
-        auto r = Shamir::split(zero, static_cast<std::uint8_t>(t), static_cast<std::uint8_t>(n));
-        vclock::rng_clear_queue();
-        return r;
-    };
-    auto base = run(-1);
-    std::vector<std::vector<unsigned>> feeds(32);
+    std::uint64_t used = 0;
+    std::vector<std::uint32_t> q(draws, 0u);
+    auto base = split_with_draws(zero, t, n, q, &used);
+    if (used != draws) { why = "split consumed " + std::to_string(used) + " random_device draws, expected " + std::to_string(draws); return false; }
+    if (base.size() != n) { why = "split returned " + std::to_string(base.size()) + " shares"; return false; }
+    feeds.assign(32, {});
     for (unsigned d = 0; d < draws; ++d) {
-        auto r = run(static_cast<int>(d));
-        if (r.size() != base.size()) { why = "share count varies with the draws"; return false; }
+        q[d] = 0xA5A5A5A5u;
+        auto r = split_with_draws(zero, t, n, q, &used);
+        q[d] = 0;
+        if (r.size() != base.size() || used != draws) { why = "share count / draw count varies with the draws"; return false; }
         unsigned touched = 0, which = 0;
         for (unsigned b = 0; b < 32; ++b) {
             bool diff = false;
@@ -459,71 +464,68 @@ bool enumeration_assumption_holds(unsigned t, unsigned n, std::string& why) {
         if (touched > 1) { why = "draw " + std::to_string(d) + " feeds " + std::to_string(touched) + " byte positions"; return false; }
         if (touched == 1) feeds[which].push_back(d);
     }
-    for (unsigned b = 0; b < 32; ++b) {
+    for (unsigned b = 0; b < 32; ++b)
         if (feeds[b].size() > t - 1) { why = "byte position " + std::to_string(b) + " is fed by " + std::to_string(feeds[b].size()) + " draws"; return false; }
-        if (t == 3 && feeds[b].size() == 2 && draw_is_b(feeds[b][0]) == draw_is_b(feeds[b][1])) {
-            why = "byte position " + std::to_string(b) + " pairs draws " + std::to_string(feeds[b][0]) + " and " + std::to_string(feeds[b][1]);
-            return false;
-        }
-    }
     return true;
 }
 
-// For every secret byte value and every set of t-1 share indices out of 1..n: the map (coefficients -> the t-1 share
-// values) is a bijection, i.e. t-1 shares are equally consistent with every secret.  Returns a sentence; fails the case
-// on a collision (after confirming the enumeration assumption).
-std::string enumerate_no_information(Ctx& c, unsigned t, unsigned n, std::uint64_t& splits) {
+// For each listed secret byte value and every set of t-1 share indices out of 1..n: the map (coefficient bytes -> the
+// t-1 share values) is a bijection, i.e. t-1 shares are equally consistent with every secret.  All 256^(t-1)
+// coefficient choices are enumerated (32 per split call, one per byte position).  Returns a sentence for the evidence;
+// fails the case on a collision.
+std::string enumerate_no_information(Ctx& c, unsigned t, unsigned n, const std::vector<unsigned>& secret_values, std::uint64_t& splits) {
     const unsigned draws = 32 * (t - 1);
     const unsigned inputs = t == 2 ? 256u : 65536u;
-    const unsigned npairs = t == 2 ? n : n * (n - 1) / 2;
-    std::vector<std::uint8_t> seen;  // [byte position][index (pair)][value (pair)]
+    const unsigned nsets = t == 2 ? n : n * (n - 1) / 2;
     vclock::rng_seed(0xC10);
-    for (unsigned round = 0; round < 8; ++round) {
+    std::vector<std::vector<unsigned>> feeds;
+    std::string why;
+    if (!map_draws(t, n, feeds, why)) return "coefficient enumeration for t=" + std::to_string(t) + " not applicable (" + why + "); ";
+    splits += draws + 1;
+    std::vector<std::uint32_t> seen;  // [index set][share values] -> input id + 1
+    std::vector<std::uint32_t> q(draws);
+    for (unsigned sv : secret_values) {
         Secret secret;
-        for (unsigned b = 0; b < 32; ++b) secret[b] = static_cast<std::uint8_t>(32 * round + b);
-        seen.assign(static_cast<std::size_t>(32) * npairs * inputs, 0);
-        for (unsigned in = 0; in < inputs; ++in) {
-            const unsigned a = t == 2 ? in : in >> 8, b2 = in & 0xFF;
-            vclock::rng_clear_queue();
-            push_draws(t, a, b2);
-            const std::uint64_t d0 = vclock::rng_draws();
-            auto shares = Shamir::split(secret, static_cast<std::uint8_t>(t), static_cast<std::uint8_t>(n));
-            const std::uint64_t used = vclock::rng_draws() - d0;
-            vclock::rng_clear_queue();
-            ++splits;
-            if (used != draws || shares.size() != n) {
-                return "coefficient enumeration for t=" + std::to_string(t) + " not applicable (split consumed " + std::to_string(used) +
-                       " random_device draws, expected " + std::to_string(draws) + "); ";
-            }
+        secret.fill(static_cast<std::uint8_t>(sv));
+        seen.assign(static_cast<std::size_t>(nsets) * inputs, 0);
+        for (unsigned k = 0; k < inputs / 32; ++k) {
+            std::fill(q.begin(), q.end(), 0u);
             for (unsigned b = 0; b < 32; ++b) {
-                std::size_t base = static_cast<std::size_t>(b) * npairs * inputs;
-                unsigned pair = 0;
+                const unsigned in = 32 * k + b;
+                if (!feeds[b].empty()) q[feeds[b][0]] = rep(t == 2 ? in : in >> 8);
+                if (feeds[b].size() > 1) q[feeds[b][1]] = rep(in & 0xFF);
+            }
+            auto shares = split_with_draws(secret, t, n, q);
+            ++splits;
+            if (shares.size() != n) return "coefficient enumeration for t=" + std::to_string(t) + " not applicable (share count varies); ";
+            for (unsigned b = 0; b < 32; ++b) {
+                const unsigned in = 32 * k + b;
                 auto hit = [&](std::size_t slot, unsigned i, unsigned j) {
-                    if (!seen[slot]) { seen[slot] = 1; return; }
-                    std::string why;
-                    if (!enumeration_assumption_holds(t, n, why)) throw why;
-                    c.note("enumeration t=%u n=%u secret_byte=0x%02x coefficient bytes (0x%02x,0x%02x)", t, n, secret[b], a, b2);
-                    c.fail("C10:share-values-not-uniform",
-                           "with threshold " + std::to_string(t) + " and secret byte 0x" + hex(secret.data() + b, 1, 1) + ", two different coefficient choices give the same values for share index " +
-                               std::to_string(shares[i].index) + (t == 3 ? " and " + std::to_string(shares[j].index) : std::string()) +
-                               ": the t-1 shares are not uniformly distributed, so they carry information about the secret");
+                    if (!seen[slot]) { seen[slot] = in + 1; return; }
+                    const unsigned other = seen[slot] - 1;
+                    char buf[400];
+                    if (t == 2)
+                        std::snprintf(buf, sizeof buf, "threshold 2, secret byte 0x%02x: coefficient bytes 0x%02x and 0x%02x give the same value 0x%02x for share index %u (of n=%u)", sv, other,
+                                      in, shares[i].value[b], shares[i].index, n);
+                    else
+                        std::snprintf(buf, sizeof buf, "threshold 3, secret byte 0x%02x: coefficient bytes (0x%02x,0x%02x) and (0x%02x,0x%02x) give the same values (0x%02x,0x%02x) for share indices %u and %u (of n=%u)",
+                                      sv, other >> 8, other & 0xFF, in >> 8, in & 0xFF, shares[i].value[b], shares[j].value[b], shares[i].index, shares[j].index, n);
+                    c.note("coefficient enumeration t=%u n=%u secret_byte=0x%02x (draws feeding byte position %u: %zu)", t, n, sv, b, feeds[b].size());
+                    c.fail("C10:share-values-not-uniform", std::string(buf) + ": over all coefficient choices the t-1 share values are not uniformly distributed, so fewer than t shares carry information about the secret");
                 };
-                try {
-                    if (t == 2) {
-                        for (unsigned i = 0; i < n; ++i) hit(base + static_cast<std::size_t>(i) * inputs + shares[i].value[b], i, i);
-                    } else {
-                        for (unsigned i = 0; i < n; ++i)
-                            for (unsigned j = i + 1; j < n; ++j, ++pair)
-                                hit(base + static_cast<std::size_t>(pair) * inputs + ((shares[i].value[b] << 8) | shares[j].value[b]), i, j);
-                    }
-                } catch (const std::string& why) {
-                    return "coefficient enumeration for t=" + std::to_string(t) + " not applicable (" + why + "); ";
+                if (t == 2) {
+                    for (unsigned i = 0; i < n; ++i) hit(static_cast<std::size_t>(i) * inputs + shares[i].value[b], i, i);
+                } else {
+                    unsigned set = 0;
+                    for (unsigned i = 0; i < n; ++i)
+                        for (unsigned j = i + 1; j < n; ++j, ++set)
+                            hit(static_cast<std::size_t>(set) * inputs + ((shares[i].value[b] << 8) | shares[j].value[b]), i, j);
                 }
             }
         }
     }
-    return "t=" + std::to_string(t) + ": all " + std::to_string(inputs) + " coefficient choices x 256 secret byte values x every " +
-           (t == 2 ? "share index" : "pair of share indices") + " of n=" + std::to_string(n) + " give pairwise distinct share values (bijection); ";
+    return "t=" + std::to_string(t) + ", n=" + std::to_string(n) + ": all " + std::to_string(inputs) + " coefficient choices x " + std::to_string(secret_values.size()) + " secret byte values x every " +
+           (t == 2 ? "share index" : "pair of share indices") + " give pairwise distinct share values (bijection); ";
 }
 }  // namespace
 
@@ -540,18 +542,19 @@ void run_case(Ctx& c) {
     const unsigned th = decode_t(t.h(2), t.h(3), n);
 
     Secret secret{};
-    const unsigned skind = t.h(8) % 5;
+    const unsigned skind = t.h(8) % 6;
     {
         Prng sp(t.h32(4) ^ 0x5EC2E7);
         switch (skind) {
-            case 0: break;
+            case 0: for (unsigned b = 0; b < 32; ++b) secret[b] = static_cast<std::uint8_t>(b + 1); break;
             case 1: sp.fill(secret.data(), 32); break;
-            case 2: secret.fill(0xFF); break;
-            case 3: secret[sp.below(32)] = static_cast<std::uint8_t>(1 + sp.below(255)); break;
-            case 4: for (auto& b : secret) b = (sp.byte() & 3) ? 0 : sp.byte(); break;
+            case 2: break;
+            case 3: secret.fill(0xFF); break;
+            case 4: secret[sp.below(32)] = static_cast<std::uint8_t>(1 + sp.below(255)); break;
+            case 5: for (auto& b : secret) b = (sp.byte() & 3) ? 0 : sp.byte(); break;
         }
     }
-    static const char* const kSecretName[5] = {"zero", "random", "ff", "one-hot", "sparse"};
+    static const char* const kSecretName[6] = {"01..20", "random", "zero", "ff", "one-hot", "sparse"};
 
     // split coefficients: a pure function of the tape
     const unsigned cmode = t.h(13) < 160 ? 0 : 1 + (t.h(13) - 160) % 3;
@@ -783,13 +786,20 @@ void run_case(Ctx& c) {
     if (th == 1) c.label("t_1");
     if (th >= 128) c.label("t_ge_128");
     if (cmode != 0) c.label("coef_special");
-    if (skind == 0) c.label("secret_zero");
+    if (skind == 2) c.label("secret_zero");
 }
 
 std::string run_once(Ctx& c) {
+    const bool timing = std::getenv("VERIF_C10_TIMING") != nullptr;
+    double tm = mono_now();
+    auto lap = [&](const char* what) {
+        if (timing) std::fprintf(stderr, "C10 run_once: %s %.2f s\n", what, mono_now() - tm);
+        tm = mono_now();
+    };
     auto s = refs::self_check();
     if (!s.empty()) c.fail("C10:harness-error", "reference self-check failed: " + s);
     std::string note = "reference self-checks passed; ";
+    lap("reference self-check");
 
     // ---- the share arithmetic is a genuine field (exhaustive) ----------------------------------------
     FieldState& fs = field_state();
@@ -806,6 +816,7 @@ std::string run_once(Ctx& c) {
             "associativity of + and *, distributivity on 256^3 triples; (a/b)*b=a) and " +
             (fs.impl_matches_reference ? "agree with the bitwise GF(2^8)/0x11D reference on all 65536 products; " : "DIFFER from the 0x11D reference (oracle uses: " + fs.f.origin + "); ");
 
+    lap("field axioms");
     // ---- fewer than t shares carry no information (exhaustive for t = 2, 3) ------------------------------
     unsigned nE = 254;
     if (!c.is_known(kSig255)) {
@@ -814,9 +825,18 @@ std::string run_once(Ctx& c) {
         auto probe = split_forked(z, 2, 255);
         if (probe.kind == SplitOut::Ok && probe.shares.size() == 255) nE = 255;
     }
+    lap("n=255 probe");
     std::uint64_t splits = 0;
-    note += enumerate_no_information(c, 2, nE, splits);
-    note += enumerate_no_information(c, 3, 6, splits);
+    std::vector<unsigned> all256(256), some32, few;
+    for (unsigned i = 0; i < 256; ++i) all256[i] = i;
+    for (unsigned i = 0; i < 32; ++i) some32.push_back((i * 0x4D + 0x11) & 0xFF);  // 32 distinct values incl. high-bit ones
+    few = {0x00, 0x01, 0x80, 0xFF};
+    note += enumerate_no_information(c, 2, 16, all256, splits);
+    lap("enumeration t=2 n=16");
+    note += enumerate_no_information(c, 2, nE, some32, splits);
+    lap("enumeration t=2 n=max");
+    note += enumerate_no_information(c, 3, 6, few, splits);
+    lap("enumeration t=3");
     note += std::to_string(splits) + " enumerated splits";
     vclock::rng_clear_queue();
     return note;
